@@ -42,6 +42,13 @@ def mism(ctx, what, expected, got):
                            'got': got, 'impl': impl, 'case_idx': childlib.CASE[0]})
 
 
+class FalsyMeta(type):
+    """classes that are false in a boolean context"""
+
+    def __bool__(cls):
+        return False
+
+
 class World:
     serial = 0
 
@@ -72,7 +79,8 @@ class World:
                 self.builtins.append(K)
                 self.cls[c] = K
                 continue
-            K = type('K%d' % c, tuple(self.cls[b] for b in fget0(pb, c)),
+            mcls = FalsyMeta if job.get('falsy_classes') else type
+            K = mcls('K%d' % c, tuple(self.cls[b] for b in fget0(pb, c)),
                      {'__module__': self.modname})
             self.cls[c] = K
             setattr(self.mod, 'K%d' % c, K)
